@@ -50,12 +50,12 @@
    shape outside the guard, the swap loop runs exactly for [(a, n); (b, n)], and the shape of a
    transposition is by NAME in the requested (not the inverse) order (C13_transpose_shape_by_name).
    The guard is re-read from the Rust source on every run (tools/props/c13.py). *)
-From Coq Require Import List ZArith NArith Bool Arith.
+From Coq Require Import List ZArith NArith Bool Arith Permutation.
 From EasyML Require Import Base.Sx Model.Shape Model.Tensor Model.TSource Model.ShapeIter
   Model.Transform Model.TransformG Proofs.ShapeP Proofs.C01P Proofs.OdometerP Proofs.C09P Proofs.C13P
   Proofs.C13bP Proofs.SwapLoopP Proofs.C13SymP Proofs.C09OwnedP Proofs.C13MutP Proofs.SrcWfP
   Proofs.SrcLensP Proofs.C13CtorP Proofs.C13GenP
-  Model.IterG Model.TransformMutG Proofs.C09ViewsP Proofs.C13MutGenP Proofs.C13LeavesP Proofs.C13ReorderP Proofs.C13EqTransP.
+  Model.IterG Model.TransformMutG Proofs.C09ViewsP Proofs.C13MutGenP Proofs.C13LeavesP Proofs.C13ReorderP Proofs.C13EqTransP Proofs.C13SimNamesP.
 From EasyML Require Model.Views Proofs.C02P Proofs.C02Inj.
 Import ListNotations.
 Open Scope N_scope.
@@ -254,6 +254,14 @@ Theorem C13_similar_iff_some_reordering : forall A (eqb : A -> A -> bool) (l r :
                     dm_new (names_of (src_shape r)) dims = Some tbl /\
                     tensor_equality eqb l (TAccess r tbl) = true).
 Proof. exact @similarity_iff_some_reordering. Qed.
+
+(* similar sources have the same SET of dimension names: the right one's names are a permutation of the
+   left one's (D is equal by typing: Similar relates sources of one dimensionality) *)
+Theorem C13_similar_names_perm : forall A (eqb : A -> A -> bool) (l r : tsrc A),
+  NoDup (names_of (src_shape r)) -> length (src_shape l) = length (src_shape r) ->
+  tensor_similarity eqb l r = true ->
+  Permutation (names_of (src_shape r)) (names_of (src_shape l)).
+Proof. exact @similarity_names_perm. Qed.
 
 (* similarity is symmetric (for sources meeting the TensorRef contract, with valid names) *)
 Theorem C13_similar_sym : forall A (eqb : A -> A -> bool),
@@ -799,6 +807,7 @@ Print Assumptions C13_eq_trans.
 Print Assumptions C13_similar_iff.
 Print Assumptions C13_similar_iff_some_reordering.
 Print Assumptions C13_similar_sym.
+Print Assumptions C13_similar_names_perm.
 Print Assumptions C13_access_total.
 Print Assumptions C13_eq_implies_similar.
 Print Assumptions C13_similar_refl.
